@@ -48,7 +48,7 @@ RULE = (
     'from the link + Disconnection Complete/CONNECTION_TIMEOUT), Host.on_transport_lost()} the procedure is re-run '
     'on a fresh world and the cut is injected after the k-th packet (both tiers: all k x all 4 kinds at zero '
     'delay), plus Hypothesis-drawn (procedure, k, cut, order-preserving per-node HCI delay vectors; quick 500, '
-    'thorough 48000). non-trivial = the procedure was still pending when the cut '
+    'thorough 32000). non-trivial = the procedure was still pending when the cut '
     'fired, or the cut is a transport loss; distinct by (procedure, k, cut kind, delays).'
 )
 ASSUMPTIONS = [
@@ -892,7 +892,7 @@ def run(ctx) -> None:
         }).map(norm_case)
 
     strategy = st.sampled_from([p.name for p in PROCS]).flatmap(triple)
-    ctx.hyp('delayed', lambda c: run_case(ctx, c), strategy, max_examples=ctx.n(500, 48000))
+    ctx.hyp('delayed', lambda c: run_case(ctx, c), strategy, max_examples=ctx.n(500, 32000))
 
     for kind in KINDS:
         ctx.floor(f'cut:{kind}', 20)
